@@ -153,17 +153,44 @@ class Workspace:
 
 
 class TargetLock:
-    """Serialises use of one cached cargo target directory."""
+    """Serialises use of one cached cargo target directory, and makes cargo's freshness test sound for it.
 
-    def __init__(self, name):
+    Cargo names the artifacts of a path package after its workspace-relative path and decides freshness
+    by comparing source mtimes with the dep-info file of the last build - the absolute location of the
+    workspace copy does not enter.  Every woven copy of /repo therefore maps to the SAME artifacts in a
+    shared target directory, and a copy whose files are older than the last build made from a DIFFERENT
+    copy (a check that waited for this lock while another one built; an unwoven dependency crate whose
+    files keep /repo's old mtimes) would silently be verified against the other copy's code.  Measured:
+    a seeded change went undetected once, and a clean tree failed to compile once, both under concurrent
+    runs.  Cure: whenever the directory was last used by another copy, every source file of this copy is
+    touched after the lock is held, so it is newer than anything built before."""
+
+    def __init__(self, name, ws=None):
         os.makedirs(CACHE_ROOT, exist_ok=True)
         self.target = os.path.join(CACHE_ROOT, name)
         os.makedirs(self.target, exist_ok=True)
         self.lockfile = os.path.join(CACHE_ROOT, name + ".lock")
+        self.ws = ws
 
     def __enter__(self):
         self.fd = open(self.lockfile, "w")
         fcntl.flock(self.fd, fcntl.LOCK_EX)
+        if self.ws is not None:
+            stamp = os.path.join(self.target, ".verif-last-copy")
+            try:
+                last = open(stamp).read()
+            except OSError:
+                last = ""
+            if last != self.ws.dir:
+                for root, dirs, files in os.walk(self.ws.ws):
+                    dirs[:] = [d for d in dirs if d not in ("target", ".git")]
+                    for f in files:
+                        try:
+                            os.utime(os.path.join(root, f), None)
+                        except OSError:
+                            pass
+                with open(stamp, "w") as f:
+                    f.write(self.ws.dir)
         return self.target
 
     def __exit__(self, *a):
@@ -266,7 +293,7 @@ def kani_run(ws, crate, harnesses, features=None, jobs=8, timeout=900, harness_t
         cmd += ["--exact"]
     for h in harnesses:
         cmd += ["--harness", (modpath + "::" + h) if modpath else h]
-    with TargetLock("kani-" + crate) as target:
+    with TargetLock("kani-" + crate, ws) as target:
         cmd_t = cmd + ["--target-dir", target]
         rc, out, timed_out, secs = run(cmd_t, cwd=ws.ws, timeout=timeout)
     res = parse_kani_terse(out)
@@ -292,7 +319,7 @@ def kani_playback(ws, crate, harness, features=None, timeout=600, solver=None, m
             if f.startswith("verif_") and f.endswith(".rs"):
                 p = os.path.join(root, f)
                 before[p] = open(p).read()
-    with TargetLock("kani-" + crate) as target:
+    with TargetLock("kani-" + crate, ws) as target:
         hsel = ["--exact", "--harness", modpath + "::" + harness] if modpath else ["--harness", harness]
         rc, out, to, _ = run(base + ["--concrete-playback=inplace"] + hsel + ["--target-dir", target],
                              cwd=ws.ws, timeout=timeout)
@@ -345,7 +372,7 @@ def native_search(ws, crate, test, features=None, targets=(), replay_input=None,
     env = {"RUSTFLAGS": "--cfg verif_search", "VERIF_SEARCH_TARGETS": ",".join(targets), "VERIF_SEED": str(seed)}
     if replay_input is not None:
         env["VERIF_REPLAY"] = replay_input
-    with TargetLock("native-" + crate) as target:
+    with TargetLock("native-" + crate, ws) as target:
         env["CARGO_TARGET_DIR"] = target
         rc, out, to, secs = run(cmd, cwd=ws.ws, timeout=timeout, env=env)
     found = {}
